@@ -33,33 +33,6 @@ func VerifChans[K Key, V any](c *Cache[K, V]) (setBuf chan *Item[V], itemsCh cha
 	return c.setBuf, c.cachePolicy.itemsCh
 }
 
-// VerifRing returns the keys sitting in pooled ring stripes (Gets not yet handed to the policy).
-func VerifRing[K Key, V any](c *Cache[K, V]) [][]uint64 {
-	var out [][]uint64
-	for _, it := range verifPoolItems(c.getBuf.pool) {
-		if s, ok := it.(*ringStripe); ok {
-			out = append(out, append([]uint64(nil), s.data...))
-		}
-	}
-	return out
-}
-
-// VerifMetricTotals returns the totals of every metric type, in declaration order.
-func VerifMetricTotals(m *Metrics) []uint64 {
-	if m == nil {
-		return nil
-	}
-	out := make([]uint64, 0, doNotUse)
-	for i := 0; i < doNotUse; i++ {
-		var t uint64
-		for _, p := range m.all[i] {
-			t += *p
-		}
-		out = append(out, t)
-	}
-	return out
-}
-
 func VerifMetricNames() []string {
 	out := make([]string, 0, doNotUse)
 	for i := 0; i < doNotUse; i++ {
